@@ -611,6 +611,20 @@ def _exec_genfile(run, rd):
     with run.guard(scope, "construct env (reader)"):
         env = E.make_env(cfg2)
     loaded_sets = []
+    # perturbation: the same file(s) were already read once through the same environment (validation and test
+    # set from one file, a second epoch, load_data followed by dataset): the read under test must not notice
+    if plan["np_seed"] % 3 == 0 and consumer != "load_data_simfile":
+        with run.guard(scope, "earlier read of the same file(s)", consumer=consumer, promise=False):
+            if consumer == "load_data":
+                env.load_data(os.path.join(data_dir, files[0]))
+            elif consumer == "dataset_val":
+                env.dataset(K, phase="val")
+            elif consumer == "dataset_filename":
+                env.dataset(K, phase="test", filename=os.path.join(data_dir, files[0]))
+            else:
+                env.dataset(K, phase="test")
+        run.fault("earlier_read_same_file")
+        run.probe("genfile_read_twice")
     if consumer in ("load_data", "load_data_simfile"):
         src = fs.open(files[0]) if consumer == "load_data_simfile" else os.path.join(data_dir, files[0])
         with run.guard(scope, "env.load_data", constraint="load_data", consumer=consumer):
